@@ -28,15 +28,24 @@ func CaptureResponse(w http.ResponseWriter) *ResponseCapture {
 	return &ResponseCapture{ResponseWriter: w}
 }
 
+// committed returns true once a final status has been recorded: net/http ignores
+// WriteHeader after the header has been sent (informational 1xx codes other than
+// 101 do not send it).
+func (w *ResponseCapture) committed() bool {
+	return w.StatusCode >= 200 || w.StatusCode == http.StatusSwitchingProtocols
+}
+
 // WriteHeader records the value of the status code before writing it.
 func (w *ResponseCapture) WriteHeader(code int) {
-	w.StatusCode = code
+	if !w.committed() {
+		w.StatusCode = code
+	}
 	w.ResponseWriter.WriteHeader(code)
 }
 
 // Write computes the written len and stores it in ContentLength.
 func (w *ResponseCapture) Write(b []byte) (int, error) {
-	if w.StatusCode == 0 {
+	if !w.committed() {
 		// Writing the body without calling WriteHeader sends a 200.
 		w.StatusCode = http.StatusOK
 	}
@@ -49,6 +58,10 @@ func (w *ResponseCapture) Write(b []byte) (int, error) {
 // writer supports it.
 func (w *ResponseCapture) Flush() {
 	if f, ok := w.ResponseWriter.(http.Flusher); ok {
+		if !w.committed() {
+			// Flushing without calling WriteHeader sends a 200.
+			w.StatusCode = http.StatusOK
+		}
 		f.Flush()
 	}
 }
